@@ -231,7 +231,7 @@ PROPS = {
                         "V6_api.fn:Functions::set_local_fn_name", "V6_api.fn:Functions::set_imported_fn_name", "V6_api.ModuleImports.set_name.*", "V6_api.fn:ModuleImports::set_name",
                         "V6_api.ModuleImports.set_fn_name.*", "V6_api.fn:ModuleImports::set_fn_name", "V6_api.fn:Import::is_function", "V6_api.fn:lemma_fn_imports_before_monotone",
                         "V2_reindex.recalculate_ids.live_items_stay_bound", "V2_reindex.reorganise_generic.*", "V2_reindex.fn:reorganise_generic"],
-        "obligations_extra": V11_CODE + V12_IMPORTS,
+        "obligations_extra": ["V12_sections.encode_names.*", "V12_sections.fn:Module::encode_names", "V12_sections.kf.encode_names.*"] + V11_CODE + V12_IMPORTS,
         "glue": V12_TRUST + [ENCODE_GLUE, "TRUSTED axiom (ModuleImports::set_fn_name): the elements a dropped slice::IterMut has not yielded keep their values", "function names travel inside the Function / Body / Import items that V2 proves are permuted, never rebuilt; emission of the name section is glue",
                  "stored local-name and global-name maps (IndirectNameMap / NameMap) are re-emitted verbatim by encode_internal and are NOT re-indexed (seen while reading; not decidable by these checks)"],
         "design_ref": "DESIGN.md §5 C29",
